@@ -36,7 +36,7 @@ func c10Names() []string {
 
 func c10(r *mon.Run) {
 	r.Rule = "exhaustive: (26 built-in names + foo, Abs, length2, amp) x argument counts 0..3 (0..4 in thorough; quick covers arity 4 for the variadic functions and 3 fixed-arity representatives) x every argument tuple over a 14-value universe (null, boolean, number, string, array[number], array[string], mixed / empty / nested array, object, empty object, array of objects, &a, &@), arguments written as literals and read from the document; " +
-		"by-expression functions x arrays of length 0..3 whose keys are number / string / null / array / object / boolean / missing in every combination; seeded random nestings of ill-typed calls. Oracle: ref.CheckArgs (signature table) + model. Non-trivial = distinct (function, arity, type tuple) that the table rejects."
+		"by-expression functions x arrays of length 0..3 whose keys are number / string / null / array / object / boolean / missing in every combination; seeded random nestings of ill-typed calls; the ill-typed half of the sized-array cases (by-expression keys inconsistent at one position of 1...1000 elements); 23 Go values that are not the JSON representation (int, uint8, float32, json.Number, named types, pointers, structs, typed maps, []interface{} holding such values, complex, func, chan, nil *struct, [2]int) in every parameter position of every function, direct and per element of a projection: an error where the position declares a type, never a panic. Oracle: ref.CheckArgs (signature table) + model. Non-trivial = distinct (function, arity, type tuple) that the table rejects."
 	r.Exhaustive = true
 	r.Floor = 2000
 	r.Assumptions = []string{"the signature table ref.Signatures is the JMESPath function specification; an expression reference passed where `any` is declared is left open (only 'no panic' is required there)"}
